@@ -38,10 +38,15 @@ func sanitizeSelectionSet(ctx *PlanningContext, selectionSet ast.SelectionSet, i
 			childSelectionSet, sf := sanitizeSelectionSet(ctx, s.SelectionSet, insertionPoint)
 			scrubFields.Merge(sf)
 
-			var addedFields []string
-			childSelectionSet, addedFields = addScrubFieldsToSelectionSet(ctx, childSelectionSet, s.TypeCondition)
-			for _, f := range addedFields {
-				scrubFields.Set(insertionPoint, s.TypeCondition, f)
+			// a fragment under an object parent is flattened into the enclosing selection set,
+			// whose own helper fields are added (and registered for scrubbing) by the enclosing
+			// field; adding them here as well would scrub an `id` the client selected itself
+			if s.ObjectDefinition.Kind == ast.Interface || s.ObjectDefinition.Kind == ast.Union {
+				var addedFields []string
+				childSelectionSet, addedFields = addScrubFieldsToSelectionSet(ctx, childSelectionSet, s.TypeCondition)
+				for _, f := range addedFields {
+					scrubFields.Set(insertionPoint, s.TypeCondition, f)
+				}
 			}
 
 			switch s.ObjectDefinition.Kind {
